@@ -4,7 +4,7 @@ from pyvc.runner import func
 UPDATE_ALL = [func("bt.core.StrategyBase.update", variant=v) for v in ("flat", "paper", "nested", "nested-paper")]
 ID = "C10"
 META = {
-    "assumptions": ["A-REAL", "A-COMM", "A-T", "A-DATA-NONE", "A-SOLVER", "A-ENGINE"],
+    "assumptions": ["A-REAL", "A-COMM", "A-T", "A-SOLVER", "A-ENGINE"],
     "explanation": "Exceptional postconditions proved on the real bodies, both directions: SecurityBase.allocate refuses a zero/NaN price iff the amount is non-zero (and never completes with one); every "
     "security update raises iff the price (coupon) is NaN on an open position and otherwise records value = position*price*multiplier; StrategyBase.update raises ZeroDivisionError only on a zero base with "
     "non-zero numerator (market-value and fixed-income forms) and records a non-NaN value; transact raises iff a custom price is given without bid/offer data; every division and modulo in a function under "
@@ -41,3 +41,33 @@ def replay(o):
     from pyvc.concrete import replay_scenario
 
     return replay_scenario(o)
+
+
+KNOWN_WITNESS_SRC = """
+import json, warnings
+import numpy as np, pandas as pd
+warnings.filterwarnings("ignore")
+import bt
+from bt import algos as A
+idx = pd.bdate_range("2020-01-01", periods=6)
+data = pd.DataFrame({"a": np.linspace(100, 105, 6), "b": np.linspace(50, 48, 6), "c": np.linspace(10, 11, 6)}, index=idx)
+mk = lambda: bt.Strategy("sub", [A.RunOnce(), A.SelectThese(["a", "b"]), A.WeighSpecified(a=0.5, b=0.3), A.Rebalance()], children=["a", "b"])
+alone = bt.Backtest(mk(), data, progress_bar=False); alone.run()          # the definition is fine on its own
+top = bt.Strategy("top", [A.RunWeekly(), A.SelectAll(), A.WeighEqually(), A.Rebalance()], children=[mk(), "c"])
+try:
+    bt.Backtest(top, data, progress_bar=False).run()
+    print("JSON:" + json.dumps(dict(still=False)))
+except Exception as e:
+    print("JSON:" + json.dumps(dict(still="price is nan as of 2019-12-31" in repr(e), error=repr(e)[:200])))
+"""
+
+
+def known_witness(f):
+    """replays the recorded failing input of a known finding on the current tree (real code)"""
+    if f["id"] != "C10-nested-runonce-trades-on-synthetic-first-date":
+        return None
+    from pyvc.replay import Scratch
+
+    with Scratch() as sc:
+        d = sc.run_json(KNOWN_WITNESS_SRC, timeout=120)
+    return bool(d.get("still"))
